@@ -39,10 +39,14 @@ class OneRewrite(R.Choices):
         c = list(content)
         if t.kind == "BITS":
             unused, data = c[0], c[1:]
+            if self.sp == 3:
+                return [] if (not data and not unused) else [c]
             sp = min(self.sp, len(data))
             if unused and sp == len(data):
                 sp = len(data) - 1
             return [[0] + data[:sp], [unused] + data[sp:]]
+        if self.sp == 3:
+            return [c] if c else []  # constructed form with no segment at all (empty string) / a single segment
         sp = min(self.sp, len(c))
         return [c[:sp], c[sp:]]
 
@@ -103,5 +107,5 @@ for e in all_entries():
     sh = [{"kind": C(k), "with_spec": C(w)} for k in kinds for w in specs]
     if not sh:
         continue
-    OBLIGATIONS.append(entry_obl("rewrite", rewrite, e, extra={"kind": I(0, 2), "pos": I(0, 5), "x": I(1, 254), "sp": I(0, 2), "with_spec": B},
+    OBLIGATIONS.append(entry_obl("rewrite", rewrite, e, extra={"kind": I(0, 2), "pos": I(0, 5), "x": I(1, 254), "sp": I(0, 3), "with_spec": B},
                                  narrow=True, budget=90, extra_shards=sh))
